@@ -181,7 +181,7 @@ def run_client(ctx, cases):
 
 
 def run(ctx):
-    ctx.translate(['Consts.v', 'RtuLengths.v'])
+    ctx.translate(['Consts.v', 'RtuLengths.v', 'ParserShape.v'])
     models_ok = ctx.build_models(['Base.Show', 'Base.Frame', 'Model.Reader', 'Spec.Framing', 'Model.FramingEval'])
     ctx.prove()
     if ctx.tier == 'thorough':
